@@ -263,8 +263,8 @@ def ring_cases(st):
             doc2 = {**ref_node("properties", ["#/definitions/d0"], "Root"), "definitions": defs2}
             judge_graph(st, "chain length %d kind %s" % (length, kind), doc2, None, False, rank=length)
     # long rings: the cycle is only closed after hundreds of hops (deeper than the reference resolver's own recursion)
-    for length in (40, 120, 260, 400, 700):
-        for kind in ("properties", "items"):
+    for length in ((40, 260, 700) if _TIER[0] == "quick" else (40, 120, 260, 400, 700)):
+        for kind in (("properties",) if _TIER[0] == "quick" and length != 260 else ("properties", "items")):
             defs = {"d%d" % i: ref_node(kind, ["#/definitions/d%d" % ((i + 1) % length)], "D%d" % i) for i in range(length)}
             doc = {**ref_node("properties", ["#/definitions/d0"], "Root"), "definitions": defs}
             judge_graph(st, "ring length %d kind %s" % (length, kind), doc, None, True, rank=length, budget=BUDGET * length)
@@ -273,7 +273,7 @@ def ring_cases(st):
         doc = {**ref_node("properties", ["#/definitions/d0"], "Root"), "definitions": defs}
         judge_graph(st, "chain length %d kind properties" % length, doc, None, False, rank=length, budget=BUDGET * length)
     # rings built by hand (already resolved: the objects refer to each other), handed to parse() and parse_element()
-    for length in (1, 2, 50, 300, 1000):
+    for length in ((1, 2, 300) if _TIER[0] == "quick" else (1, 2, 50, 300, 1000)):
         for kind in ("properties", "items", "anyOf", "additionalProperties"):
             nodes = [{"type": "object", "title": "N%d" % i, "properties": {"own": {"type": "integer"}}} for i in range(length)]
             for i, node in enumerate(nodes):
@@ -371,7 +371,11 @@ def threaded_parse(st):
     st.outcome("threaded-parse")
 
 
+_TIER = ["quick"]
+
+
 def plan(tier, seed):
+    _TIER[0] = tier  # workers are forked after plan() and inherit it
     nb = len([l for l in A.LEAVES if isinstance(l, dict)]) + A.N
     items = [("kw", lo, min(nb, lo + 6)) for lo in range(0, nb, 6)]
     items += [("graph", 1, 0, 2, REF_KINDS), ("graph", 2, 0, 16, REF_KINDS)]
